@@ -15,8 +15,9 @@ pub fn name(rng: &mut Rng, patch: bool) -> Vec<u8> {
         }
     }
     if patch {
-        // ("emul-patch-": the "-patch-" of the rule starts inside the "emul-" prefix)
-        n.extend_from_slice(rng.pick_str(&["patch-", "patch-", "emul-x-patch-", "emul-linux-patch-", "emul-patch-", "emul--patch-"]).as_bytes());
+        // (not "emul-patch-": there the "-patch-" of the rule starts inside the "emul-" prefix, the
+        // code's substring test and the statement's glob emul-*-patch-* differ, and the name is not judged)
+        n.extend_from_slice(rng.pick_str(&["patch-", "patch-", "emul-x-patch-", "emul-linux-patch-", "emul--patch-"]).as_bytes());
     } else if rng.chance(1, 6) {
         n.extend_from_slice(rng.pick_str(&["patch-local-", "foo.patch-", "patch-2.7.tar.", "xpatch-"]).as_bytes());
     }
